@@ -6,9 +6,16 @@ add-on (idpyoidc.client.oauth2.add_on.pkce) through Service.construct_request.  
 (authorization request -> code -> token request); the observed outcome is compared with Model/Pkce.v
 (flow / rp_make, evaluated by vm_compute with the hash given as a finite table computed here with hashlib),
 and judged by an oracle written from the property text (recomputes the transform with hashlib/base64).
+
+Transport flows (run_dflow): the authorization request reaches the provider as a signed request object by value
+(`request`), by reference (`request_uri`), or pushed (PAR) and redeemed through the issued urn, while the front channel
+carries its own (same / different / partial) code_challenge + code_challenge_method next to it.  Model: delivery /
+assembled / flow_d / recorded_d of Model/Pkce.v; oracle: the pair of the protected request (ref_request_pair) decides
+which verifier must be accepted / refused, and the pair recorded in the grant of the code is observed directly.
 """
 import base64
 import hashlib
+import json
 
 import engine as E
 from engine import coq_str, coq_list, coq_bool, coq_n, coq_opt
@@ -23,12 +30,23 @@ RULE = ("flows through the real authorization+token endpoints of 9 providers (co
         "challenge; (3) verifier lengths 0,1,42,43,64,128,129,1000 and alphabets unreserved / other ASCII / "
         "non-ASCII; (4) the real RP add-on for every configured method x length, its requests sent to every "
         "provider; (5) random multi-fault flows.  A case is one flow; non-trivial when a challenge was sent "
-        "or PKCE is essential.")
+        "or PKCE is essential.  (6) TRANSPORTS of the authorization request: the two PKCE parameters delivered inside a "
+        "signed request object by value (`request`), by reference (`request_uri` document), pushed (PAR, plain body or "
+        "an object in the body; redeemed through the issued urn) x what travels NEXT to it on the front channel "
+        "(nothing / the same pair / another challenge / another challenge and method / only a method / the same "
+        "challenge under 'plain' / an unsupported method) x the protected request with both, one or none of the two "
+        "parameters x verifier of the protected challenge / of the front-channel challenge / the challenge itself / "
+        "none, on all 9 providers; the pair recorded in the grant of the code is observed as well; the library's RP "
+        "pair sent through every transport with a foreign challenge on the front channel; random transport flows.")
 ASSUMPTIONS = [
     "HB bits v = b64url_nopad(sha<bits>(ascii v)) is an arbitrary function in C15_bound/_essential/_no_downgrade; "
     "C15_near_miss_refused assumes it injective (collision-free hash), C15_rp_op_agree assumes its output non-empty",
     "the authorization code resolves to the grant of the authorization request that produced it (C02/C14)",
     "Message.from_dict drops empty-string parameters (modelled as norm); parameters are strings",
+    "transport flows use genuine request objects (signed by the client's registered key, iss/aud/client_id right) and "
+    "pushes with valid client credentials: whether an object / a push is authentic is C16's subject; C15 fixes which of "
+    "the transported PKCE pairs binds the code (the protected one; a request_uri document lets front-channel "
+    "parameters fill what it does not carry, C16's 'override same-named' rule)",
 ]
 
 PKCE_FN = "idpyoidc.server.oauth2.add_on.pkce.add_support"
@@ -66,6 +84,42 @@ def hb_table(strings):
             d = base64.urlsafe_b64encode(hashlib.new("sha%d" % bits, raw).digest()).decode("ascii").rstrip("=")
             rows.append("(%s, %s, %s)" % (coq_n(bits), coq_str(s), coq_str(d)))
     return coq_list(rows, "(N * pystr * pystr)")
+
+
+# ---------------------------------------------------------------- request objects of client_1
+_KEYS = {}
+
+
+class _Resp:
+    def __init__(self, code, text):
+        self.status_code, self.status, self.text = code, code, text
+
+
+def client_keys():
+    """client_1's signing keys (generated once per process); the providers import the public halves"""
+    if not _KEYS:
+        from cryptojwt.key_jar import init_key_jar
+        kj = init_key_jar(key_defs=[{"type": "RSA", "key": "", "use": ["sig"]}, {"type": "EC", "crv": "P-256", "use": ["sig"]}],
+                          issuer_id="client_1")
+        _KEYS["RS256"] = kj.get_signing_key("RSA", issuer_id="client_1")[0]
+        _KEYS["ES256"] = kj.get_signing_key("EC", issuer_id="client_1")[0]
+        _KEYS["jwks"] = kj.export_jwks(issuer_id="client_1")
+    return _KEYS
+
+
+def sign_object(claims, alg):
+    from cryptojwt.jws.jws import JWS
+    return JWS(json.dumps(claims), alg=alg).sign_compact([client_keys()[alg]])
+
+
+def with_pair(d, pair):
+    d = dict(d)
+    if pair is not None:
+        if pair[0] is not None:
+            d["code_challenge"] = pair[0]
+        if pair[1] is not None:
+            d["code_challenge_method"] = pair[1]
+    return d
 
 
 # ---------------------------------------------------------------- providers
@@ -129,6 +183,82 @@ class Prov:
         if ra is None or "code" not in ra:
             return ("AzRefused", 0)
         return ("code", ra["code"])
+
+    # ---- transports of the authorization request (request object by value / by reference, PAR)
+    BASE = {"client_id": "client_1", "redirect_uri": "https://client_1.example.com/cb", "scope": "openid",
+            "response_type": "code"}
+
+    def enable_transports(self):
+        if getattr(self, "docs", None) is not None:
+            return
+        self.docs = {}
+        self.server.keyjar.import_jwks(client_keys()["jwks"], "client_1")
+        self.server.context.httpc = self._httpc
+        self.par = self.server.get_endpoint("pushed_authorization")
+
+    def _httpc(self, method, url, **kw):
+        if url in self.docs:
+            return _Resp(200, self.docs[url])
+        return _Resp(404, "")
+
+    def request_object(self, pair, state, alg):
+        claims = with_pair(dict(self.BASE, state=state, iss="client_1", aud=self.server.context.issuer), pair)
+        return sign_object(claims, alg)
+
+    def deliver(self, d, state="ST"):
+        """Sends the authorization request described by d (see run_dflow) to the real endpoints.
+        returns ('code', code) | ('AzRefused', n) | ('AzRaised', name); a refused / failing PUSH is ('AzRefused', 97)"""
+        self.enable_transports()
+        self.n += 1
+        self.cookie_in = None
+        if self.n % 200 == 0:
+            self.server.context.session_manager.flush()
+        t = d["t"]
+        alg = d.get("alg", "RS256")
+        base = dict(self.BASE, state=state)
+        if t == "front":
+            return self.authz_req(with_pair(base, d["front"]))
+        if t == "value":
+            return self.authz_req(with_pair(dict(base, request=self.request_object(d["obj"], state, alg)), d["front"]))
+        if t == "uri":
+            u = "https://client_1.example.com/ro/%d" % self.n
+            self.docs.clear()
+            self.docs[u] = self.request_object(d["obj"], state, alg)
+            return self.authz_req(with_pair(dict(base, request_uri=u), d["front"]))
+        # pushed: over the authenticated back channel, then redeemed through the issued request_uri
+        if t == "par":
+            body = with_pair(base, d["body"])
+        else:
+            body = with_pair(dict(base, request=self.request_object(d["obj"], state, alg)), d["body"])
+        secret = self.server.context.cdb["client_1"]["client_secret"]
+        if d.get("push_auth") == "post":
+            body["client_secret"] = secret
+            hi = {}
+        else:
+            hi = {"headers": {"authorization": "Basic " + base64.b64encode(("client_1:%s" % secret).encode()).decode()}}
+        try:
+            pr = self.par.parse_request(body, http_info=hi)
+            if "error" in pr:
+                return ("AzRefused", 97)
+            urn = self.par.process_request(pr)["http_response"]["request_uri"]
+        except Exception:
+            return ("AzRefused", 97)
+        if d.get("redeem") == "min":   # what the RP's PAR add-on leaves on the front channel
+            red = {"client_id": "client_1", "response_type": "code", "request_uri": urn}
+        else:
+            red = dict(base, state="redeem-" + state, request_uri=urn)
+        return self.authz_req(with_pair(red, d["front"]))
+
+    def recorded(self, code):
+        """(code_challenge or None, code_challenge_method or None) of the authorization request stored in the grant of
+        the code; None when the grant cannot be found"""
+        try:
+            g = self.server.context.session_manager.get_session_info_by_token(
+                code, grant=True, handler_key="authorization_code")["grant"]
+            ar = g.authorization_request
+            return (ar.get("code_challenge"), ar.get("code_challenge_method"))
+        except Exception:
+            return None
 
     def token(self, code, cv, tccm, extra=None):
         """returns ('Tokens',) | ('TkRefused', n) | ('TkRaised', exc)"""
@@ -249,6 +379,128 @@ def oracle(ctx, prov, rec, out, carried, essential):
             ctx.violation("essential-unsupported-method",
                           "PKCE essential but an authorization request with unsupported method %r (configured %r) "
                           "obtained a code" % (method, prov.methods), rec)
+
+
+# ---------------------------------------------------------------- flows whose authorization request came through a transport
+# d = {"t": "front" | "value" | "uri" | "par" | "par_obj",
+#      "obj":   [code_challenge, code_challenge_method] inside the signed request object     (value, uri, par_obj)
+#      "body":  [...] plain parameters of the pushed body (par; par_obj: next to the object)  (par, par_obj)
+#      "front": [...] next to request / request_uri on the front channel (front: the request itself)
+#      "alg": signing algorithm of the object, "push_auth": basic | post, "redeem": full | min}
+def nz(x):
+    return x if isinstance(x, str) and x != "" else None
+
+
+def ref_protected(d):
+    """The PKCE pair of the authenticated / protected request: the signed object; for a plain push the pushed body.
+    None: the request has no protected part."""
+    t = d["t"]
+    if t == "front":
+        return None
+    src = d["body"] if t == "par" else d["obj"]
+    return (nz(src[0]), nz(src[1]))
+
+
+def ref_request_pair(d):
+    """The pair the provider has to go by.  Written from the rule, not from the code: a pushed request IS the request
+    (RFC 9126: the urn stands for what was pushed); the parameters of a request object passed by value are the request
+    (the object is the request); a request_uri document overrides same-named front-channel parameters (C16) and
+    front-channel parameters only fill what the document does not carry."""
+    f = (nz(d["front"][0]), nz(d["front"][1]))
+    p = ref_protected(d)
+    if p is None:
+        return f
+    if d["t"] == "uri":
+        return (p[0] if p[0] is not None else f[0], p[1] if p[1] is not None else f[1])
+    return p
+
+
+def coq_pair(pr):
+    pr = pr if pr is not None else [None, None]
+    return "(%s, %s)" % (s_opt(pr[0]), s_opt(pr[1]))
+
+
+def coq_delivery(d):
+    t = d["t"]
+    if t == "front":
+        return "(DFront %s)" % coq_pair(d["front"])
+    if t == "value":
+        return "(DValue %s %s)" % (coq_pair(d["obj"]), coq_pair(d["front"]))
+    if t == "uri":
+        return "(DRef %s %s)" % (coq_pair(d["obj"]), coq_pair(d["front"]))
+    if t == "par":
+        return "(DPushed (PbPlain %s) %s)" % (coq_pair(d["body"]), coq_pair(d["front"]))
+    return "(DPushed (PbObject %s %s) %s)" % (coq_pair(d["obj"]), coq_pair(d["body"]), coq_pair(d["front"]))
+
+
+def run_dflow(ctx, prov, ce, d, cv, tccm, kind, dcases, note=None, token_req=None):
+    """One flow: deliver the authorization request through d, look at what the grant of the code records, redeem the
+    code with cv (token_req: a complete token request built by somebody else, e.g. the library's RP)."""
+    prov.set_client_flag(ce)
+    a = prov.deliver(d, state="ST%d" % prov.n)
+    obs = None
+    if a[0] == "code":
+        obs = prov.recorded(a[1])
+        out = prov.token_req(dict(token_req, code=a[1])) if token_req is not None else prov.token(a[1], cv, tccm)
+    else:
+        out = a
+    rec = {"kind": kind, "provider": {"methods": prov.methods, "essential": prov.essential, "oidc": prov.oidc},
+           "pkce_essential": ce, "delivery": d, "code_verifier": cv, "token_code_challenge_method": tccm,
+           "recorded_in_grant": list(obs) if obs is not None else None, "outcome": list(out)}
+    if note:
+        rec["note"] = note
+    eff = ref_request_pair(d)
+    prot = ref_protected(d)
+    essential = ce if ce is not None else prov.essential
+    ctx.case_seen(rec, nontrivial=True)
+    ctx.count("kind:" + kind)
+    ctx.count("transport:" + d["t"])
+    ctx.count("out:" + out[0] + (str(out[1]) if len(out) > 1 else ""))
+    # the property text on the pair the provider has to go by (same oracle as for plain flows)
+    oracle(ctx, prov, dict(rec, code_challenge=eff[0], code_challenge_method=eff[1]), out, eff[0] is not None, essential)
+    oracle_transport(ctx, prov, rec, d, prot, eff, cv, out, obs)
+    if obs is not None and obs[1] is not None:
+        obs_t = "(Some (%s, %s))" % (s_opt(nz(obs[0])), coq_str(obs[1]))
+    else:
+        obs_t = "(@None (option pystr * pystr))"
+    term = "(%s, %s, %s, %s, %s, %s, %s, %s, %s)" % (
+        coq_list([coq_str(m) for m in prov.methods], "pystr"), coq_bool(prov.essential), b_opt(ce),
+        coq_delivery(d), s_opt(cv), s_opt(tccm), hb_table([cv]), coq_outcome(out), obs_t)
+    dcases.append((term, rec))
+    return out
+
+
+def oracle_transport(ctx, prov, rec, d, prot, eff, cv, out, obs):
+    """What is specific to transports, decided without the model and without the details of how gaps are filled."""
+    if prot is None:
+        return
+    got_code = out[0] in ("Tokens", "TkRefused", "TkRaised")
+    front = (nz(d["front"][0]), nz(d["front"][1]))
+    if got_code and prot[0] is not None and (obs is None or obs[0] != prot[0]):
+        ctx.violation("recorded-challenge-not-protected",
+                      "transport %s: the protected request carries code_challenge=%r, the front channel %r, but the grant "
+                      "of the issued code records %r" % (d["t"], prot[0], front[0], obs and obs[0]), rec)
+    if got_code and prot[1] is not None and (obs is None or obs[1] != prot[1]):
+        ctx.violation("recorded-method-not-protected",
+                      "transport %s: the protected request names code_challenge_method=%r, the front channel %r, but the "
+                      "grant of the issued code records %r" % (d["t"], prot[1], front[1], obs and obs[1]), rec)
+    if got_code and d["t"] != "uri" and obs is not None and prot[0] is None and nz(obs[0]) is not None:
+        ctx.violation("recorded-challenge-from-front-channel",
+                      "transport %s: the protected request carries no code_challenge but the grant records %r "
+                      "(front channel: %r)" % (d["t"], obs[0], front[0]), rec)
+    if out[0] == "Tokens" and prot[0] is not None:
+        v = nz(cv)
+        if v is None or all(ref_tr(m, v) != prot[0] for m in ALL):
+            ctx.violation("tokens-not-protected-challenge",
+                          "transport %s: tokens issued to code_verifier=%r which transforms to the protected "
+                          "code_challenge %r under no method at all (front channel carried %r)"
+                          % (d["t"], cv, prot[0], front), rec)
+    # the other direction of 'iff': the complete protected pair with its verifier must be accepted
+    if (prot[0] is not None and prot[1] in prov.methods and nz(cv) is not None and ref_tr(prot[1], cv) == prot[0]
+            and out[0] != "Tokens"):
+        ctx.violation("protected-pair-refused",
+                      "transport %s: the protected request carries (%r, %r), the token request the matching verifier, "
+                      "yet the outcome is %r (front channel carried %r)" % (d["t"], prot[0], prot[1], out, front), rec)
 
 
 # ---------------------------------------------------------------- generators
@@ -536,6 +788,124 @@ def browser_session_flows(ctx, provs, rng, cases):
                     record_flow(ctx, prov, None, None, None, None, None, "browser-no-pkce-after-pkce", cases, out)
 
 
+# ---------------------------------------------------------------- transport generators
+TRANSPORTS = ("value", "uri", "par", "par_obj")
+
+
+def mk_delivery(rng, prov, t, prot, front, body=None):
+    d = {"t": t, "front": list(front), "alg": rng.choice(["RS256", "ES256"])}
+    if t in ("value", "uri"):
+        d["obj"] = list(prot)
+    elif t == "par":
+        d["body"] = list(prot)
+    else:
+        d["obj"] = list(prot)
+        d["body"] = list(body if body is not None else front)
+    if t in ("par", "par_obj"):
+        d["push_auth"] = rng.choice(["basic", "post"])
+        d["redeem"] = "min" if (not prov.oidc and rng.random() < 0.5) else "full"
+    return d
+
+
+def transport_matrix(ctx, provs, rng, dcases):
+    """protected pair x front-channel pair x verifier, every transport, every provider"""
+    for prov in provs:
+        for t in TRANSPORTS:
+            m = rng.choice(prov.methods)
+            others = [x for x in ALL if x != m]
+            m2 = rng.choice(others)
+            vA, vB = rstr(rng, rng.choice([43, 64, 128])), rstr(rng, rng.choice([43, 64, 128]))
+            A, B, B2 = ref_tr(m, vA), ref_tr(m, vB), ref_tr(m2, vB)
+            N = (None, None)
+            combos = [
+                # name, protected pair, front-channel pair, verifiers
+                ("protected-only", (A, m), N, [vA, vB, None]),
+                ("front-repeats", (A, m), (A, m), [vA, vB]),
+                ("front-other-challenge", (A, m), (B, m), [vA, vB, None]),
+                ("front-other-challenge-and-method", (A, m), (B2, m2), [vA, vB]),
+                ("front-method-only", (A, m), (None, m2), [vA, vB]),
+                ("front-same-challenge-plain", (A, m), (A, "plain"), [vA, A]),
+                ("front-unsupported-method", (A, m), (B, "S1"), [vA, vB]),
+                ("front-challenge-only", (A, m), (B, None), [vA, vB]),
+                ("protected-no-method", (vA, None), (B, m), [vA, vB]),
+                ("protected-no-method-front-method", (A, None), (None, m), [vA, A]),
+                ("protected-none", N, (B, m), [vB, None]),
+                ("protected-method-only", (None, m), (B, None), [vB, None]),
+                ("protected-empty-challenge", ("", m), (B, m), [vB, None]),
+                ("protected-unsupported-front-supported", (ref_tr("S256", vA), "S1"), (B, m), [vA, vB]),
+                ("none-anywhere", N, N, [None]),
+            ]
+            for name, prot, front, vs in combos:
+                for cv in vs:
+                    ce = rng.choice([None, None, True, False])
+                    d = mk_delivery(rng, prov, t, prot, front)
+                    run_dflow(ctx, prov, ce, d, cv, None, "transport:" + name, dcases)
+            if t == "par_obj":
+                # three places: object A, next to it in the pushed body B, front channel a third challenge C
+                vC = rstr(rng, 43)
+                for body, front in (((B, m), (ref_tr(m, vC), m)), ((B, m), N), (N, (B, m))):
+                    for cv in (vA, vB, vC):
+                        d = mk_delivery(rng, prov, t, (A, m), front, body=body)
+                        run_dflow(ctx, prov, None, d, cv, None, "transport:three-places", dcases)
+                for cv in (vB, None):
+                    d = mk_delivery(rng, prov, t, N, N, body=(B, m))
+                    run_dflow(ctx, prov, rng.choice([None, True, False]), d, cv, None, "transport:body-next-to-object-only", dcases)
+
+
+def transport_random(ctx, provs, rng, dcases, n):
+    pool_m = ALL + ["S1", ""]
+    for _ in range(n):
+        prov = rng.choice(provs)
+        t = rng.choice(TRANSPORTS + ("front",))
+        vs = [rstr(rng, rng.choice([43, 44, 64])) for _ in range(3)]
+
+        def pair(i):
+            m = rng.choice(pool_m) if rng.random() < 0.3 else rng.choice(prov.methods)
+            c = ref_tr(m, vs[i]) if m in ALL else vs[i]
+            return (rng.choice([c, c, c, None, "", vs[i]]), rng.choice([m, m, m, None, rng.choice(pool_m)]))
+        prot, front, body = pair(0), rng.choice([pair(1), pair(1), (None, None), pair(0)]), rng.choice([pair(2), (None, None)])
+        d = mk_delivery(rng, prov, t, prot, front, body=body) if t != "front" else {"t": "front", "front": list(front)}
+        src = vs + [prot[0], front[0]]
+        cv = rng.choice([vs[0], vs[0], vs[1], vs[1], vs[2], None, "", rng.choice(src)])
+        run_dflow(ctx, prov, rng.choice([None, None, True, False]), d, cv, rng.choice([None, None, "plain"]),
+                  "transport-random", dcases)
+
+
+def rp_transport_cases(ctx, provs, rng, dcases):
+    """the pair produced by the library's RP add-on, sent through every transport while somebody else's challenge
+    travels on the front channel: the RP's own token request must be accepted, the other verifier refused"""
+    from idpyoidc.message.oauth2 import AuthorizationResponse
+    ent = make_rp(provs[0].server.context.cdb["client_1"]["client_secret"])
+    rctx = ent.get_context()
+    azs, tks = ent.get_service("authorization"), ent.get_service("accesstoken")
+    seq = 0
+    for method in ("S256", "S384", "S512"):
+        rctx.add_on["pkce"] = {"code_challenge_method": method, "code_challenge_length": rng.choice([43, 64, 128])}
+        for prov in provs:
+            for t in TRANSPORTS:
+                seq += 1
+                state = "rptstate%d" % seq
+                areq = azs.construct_request({"state": state, "response_type": "code"}).to_dict()
+                v = rctx.cstate.get_set(state, claim=["code_verifier"]).get("code_verifier", "")
+                cc, ccm = areq.get("code_challenge"), areq.get("code_challenge_method")
+                vB = rstr(rng, 43)
+                mB = rng.choice(prov.methods)
+                d = mk_delivery(rng, prov, t, (cc, ccm), (ref_tr(mB, vB), mB))
+                # the RP's own token request (its add-on supplies the verifier)
+                rctx.cstate.update(state, AuthorizationResponse(code="placeholder", state=state))
+                treq = tks.construct_request(state=state).to_dict()
+                sent_v = treq.get("code_verifier")
+                out = run_dflow(ctx, prov, None, d, sent_v, None, "rp-transport", dcases, token_req=treq,
+                                note="pair of the library's RP (%s), foreign challenge on the front channel" % method)
+                if ccm in prov.methods and out[0] != "Tokens" and v != "":
+                    ctx.violation("rp-op-disagree",
+                                  "pair produced by the library's RP (method %r) and delivered by %s refused by the library's "
+                                  "provider (configured %r) when another challenge travels on the front channel: %r"
+                                  % (ccm, t, prov.methods, out), {"delivery": d, "provider": prov.methods, "rp_method": method})
+                # ... and the verifier of the front-channel challenge
+                run_dflow(ctx, prov, None, d, vB, None, "rp-transport-foreign-verifier", dcases)
+
+
 def build_providers():
     import srv
     provs = []
@@ -551,7 +921,7 @@ def run(ctx):
     logging.getLogger("idpyoidc").setLevel(logging.CRITICAL)
     rng = ctx.rng
     provs = build_providers()
-    cases, rpcases, unres = [], [], []
+    cases, rpcases, unres, dcases = [], [], [], []
     single_faults(ctx, provs, rng, cases)
     presence_table(ctx, provs, rng, cases)
     lengths_and_alphabets(ctx, provs, rng, cases)
@@ -559,8 +929,12 @@ def run(ctx):
     browser_session_flows(ctx, provs, rng, cases)
     rp_cases(ctx, provs, rng, cases, rpcases, unres)
     random_flows(ctx, provs, rng, cases, 600 if ctx.quick else 30000)
+    transport_matrix(ctx, provs, rng, dcases)
+    rp_transport_cases(ctx, provs, rng, dcases)
+    transport_random(ctx, provs, rng, dcases, 400 if ctx.quick else 20000)
     imp = ["Lib.Base", "Lib.PyStr", "Lib.PkceTy", "Gen.PkceTables", "Model.Pkce"]
     ctx.coq_check_cases(imp, "flow_case", "chk_flow", cases, shard=400, label="flow", diag="flow_model")
+    ctx.coq_check_cases(imp, "dflow_case", "chk_dflow", dcases, shard=400, label="dflow", diag="dflow_model")
     ctx.coq_check_cases(imp, "rp_case", "chk_rp", rpcases, shard=200, label="rp", diag="rp_model")
     ctx.coq_check_cases(imp, "pystr * bool", "chk_unreserved", unres, shard=200, label="unres")
 
@@ -568,6 +942,18 @@ def run(ctx):
 def replay(ctx, rp):
     """Re-run the recorded flow (or, for a broken obligation, the generator with the recorded seed)."""
     case = rp.get("case") or {}
+    if "delivery" in case and "provider" in case:
+        import srv
+        p = case["provider"]
+        prov = Prov(srv, p["methods"], p["essential"], p.get("oidc", True))
+        dcases = []
+        out = run_dflow(ctx, prov, case.get("pkce_essential"), case["delivery"], case.get("code_verifier"),
+                        case.get("token_code_challenge_method"), "replay", dcases)
+        ctx.notes.append("replayed transport flow outcome: %r, recorded in grant %r (recorded run: %r, %r)"
+                         % (out, dcases[0][1].get("recorded_in_grant"), case.get("outcome"), case.get("recorded_in_grant")))
+        imp = ["Lib.Base", "Lib.PyStr", "Lib.PkceTy", "Gen.PkceTables", "Model.Pkce"]
+        ctx.coq_check_cases(imp, "dflow_case", "chk_dflow", dcases, label="replay", diag="dflow_model")
+        return
     if "code_challenge" in case and "provider" in case and case.get("kind") != "rp":
         import srv
         p = case["provider"]
